@@ -4,6 +4,7 @@ package peering
 
 import (
 	"crypto/ed25519"
+	"errors"
 	"hash"
 	"net/netip"
 	"time"
@@ -336,6 +337,12 @@ func vfSDeliver(e *vfSEnd, wire []byte) bool {
 	vfSLastReq = nil
 	resp, err := e.st.handle(f)
 	if err != nil {
+		vfSFaulty = false
+		for u := err; u != nil; u = errors.Unwrap(u) {
+			if u.Error() == "derived keys are faulty" {
+				vfSFaulty = true
+			}
+		}
 		return false
 	}
 	if step0 == 1 {
@@ -547,3 +554,53 @@ func VfC04Session() {
 		vf.Reach("both-complete")
 	}
 }
+
+// VfC04Honest: no attacker. Two honest routers with compatible configuration
+// (no universe / a universe name only / a universe with the shared secret),
+// either one dialling, frames delivered in order: both ends complete, each
+// names the other, and the link keys they derive match. (The only failure the
+// models allow is a collision of derived keys, which the real code refuses.)
+func VfC04Honest() {
+	vfSSigs, vfSToks, vfSDigests, vfSGuesses, vfSPool = nil, nil, nil, nil, nil
+	vfSTick, vfSChallenges = 0, nil
+	state.VfClock = vfSNow
+	u, s := "", ""
+	switch vf.Choose(3) {
+	case 1:
+		u = "u1"
+	case 2:
+		u, s = "u1", "s3cret"
+	}
+	V, P := vfSNewRouter(vfSV, u, s), vfSNewRouter(vfSP, u, s)
+	V.cfg.Router.Lite, P.cfg.Router.Lite = vf.Bool(), vf.Bool()
+	a, b := vfSStart(V, vf.Bool()), (*vfSEnd)(nil)
+	b = vfSStart(P, !a.st.client)
+	n0 := len(vfSPool)
+	order := [6]struct {
+		to  *vfSEnd
+		msg int
+	}{{a, b.reqN}, {b, a.reqN}, {a, n0 + 1}, {b, n0}, {a, n0 + 3}, {b, n0 + 2}}
+	for i, d := range order {
+		if !vfSDeliver(d.to, vfSPool[d.msg].data) {
+			vf.Assert(vfSFaulty, "honest-handshake-aborted")
+			vf.Reach("derived-keys-collide")
+			return
+		}
+		_ = i
+	}
+	vf.Assert(a.st.step == 4 && b.st.step == 4, "honest-handshake-incomplete")
+	vf.Assert(a.st.remoteIP == P.w.own && b.st.remoteIP == V.w.own, "ends-name-somebody-else")
+	vf.Assert(a.st.remoteLite == P.cfg.Router.Lite && b.st.remoteLite == V.cfg.Router.Lite, "lite-flag-not-conveyed")
+	la, err1 := a.st.finalize()
+	lb, err2 := b.st.finalize()
+	if err1 != nil || err2 != nil {
+		vf.Reach("derived-keys-collide")
+		return
+	}
+	ain, aout, _ := la.VfKeys()
+	bin, bout, _ := lb.VfKeys()
+	vf.Assert(aout == bin && bout == ain && ain != aout, "link-keys-do-not-match")
+	vf.Reach("peered")
+}
+
+var vfSFaulty bool
